@@ -6,7 +6,7 @@ use crate::monitors::c05::member_args;
 use crate::rng::Rng;
 use crate::spec::{arity, VOCAB};
 
-pub const STREAMS: [&str; 7] = ["grammar", "mutate", "args3", "args2", "numeric", "special", "vocab"];
+pub const STREAMS: [&str; 8] = ["grammar", "mutate", "args3", "args2", "numeric", "special", "vocab", "multibyte"];
 
 const HOSTILE: [char; 40] = [
     ' ', '\t', '\n', '\r', '(', ')', '!', ',', '-', '+', '/', '=', '%', '\\', '{', '}', '\'', '"', '0', '7', '8', '9', 'a', 'u', 'r', 'x', 'k', 'M', 's', 'd', ':', '@', '~', '#', ';', '*', '\u{e9}', '\u{1f600}',
@@ -76,13 +76,14 @@ fn gen_text_tree(r: &mut Rng, depth: usize) -> String {
 
 pub fn count(stream: &str, thorough: bool, scale: f64) -> u64 {
     let base: u64 = match stream {
-        "grammar" => if thorough { 1_500_000 } else { 60_000 },
-        "mutate" => if thorough { 1_500_000 } else { 80_000 },
-        "args3" => if thorough { 1_200_000 } else { 90_000 },
-        "args2" => if thorough { 400_000 } else { 40_000 },
-        "numeric" => if thorough { 300_000 } else { 20_000 },
+        "grammar" => if thorough { 600_000 } else { 60_000 },
+        "mutate" => if thorough { 600_000 } else { 80_000 },
+        "args3" => if thorough { 400_000 } else { 90_000 },
+        "args2" => if thorough { 150_000 } else { 40_000 },
+        "numeric" => if thorough { 150_000 } else { 20_000 },
         "special" => 2_000,
-        "vocab" => if thorough { 300_000 } else { 20_000 },
+        "vocab" => if thorough { 150_000 } else { 20_000 },
+        "multibyte" => if thorough { 50_000 } else { 8_000 },
         _ => 0,
     };
     ((base as f64) * scale).max(1.0) as u64
@@ -200,6 +201,27 @@ pub fn input(seed: u64, stream: &str, i: u64) -> String {
                 2 => format!("{} -print", base),
                 _ => format!("( {} )", base),
             }
+        }
+        "multibyte" => {
+            // multi-byte characters at every kind of boundary (the subset Miri interprets)
+            let mb = ['\u{e9}', '\u{1f600}', '\u{4e2d}', '\u{7f}', '\u{80}', '\u{a0}', '\u{2028}', '\u{feff}'];
+            let base = VALID_POOL[r.usize(VALID_POOL.len())];
+            let mut cs: Vec<char> = base.chars().collect();
+            let k = 1 + r.usize(3);
+            for _ in 0..k {
+                let p = r.usize(cs.len() + 1);
+                if r.chance(1, 2) || cs.is_empty() {
+                    cs.insert(p, mb[r.usize(mb.len())]);
+                } else {
+                    let q = p.min(cs.len() - 1);
+                    cs[q] = mb[r.usize(mb.len())];
+                }
+            }
+            if r.chance(1, 4) {
+                let cut = r.usize(cs.len() + 1);
+                cs.truncate(cut);
+            }
+            cs.iter().collect()
         }
         "vocab" => {
             // C05-style members and corrupted members
